@@ -3038,7 +3038,10 @@ impl<const RICE_MAX: u32, I: SignedInteger> FromBitStreamUsing for ResidualParti
                     .map(|_| {
                         let msb = r.read_unary::<1>()?;
                         let lsb = r.read_counted::<RICE_MAX, u32>(rice)?;
-                        let unsigned = (msb << u32::from(rice)) | lsb;
+                        // a residual must fit in 32 bits
+                        let unsigned =
+                            u32::try_from((u64::from(msb) << u32::from(rice)) | u64::from(lsb))
+                                .map_err(|_| Error::ResidualOverflow)?;
                         Ok::<_, Error>(if (unsigned & 1) == 1 {
                             -(I::from_u32(unsigned >> 1)) - I::ONE
                         } else {
